@@ -186,6 +186,14 @@ def run(prog: Program, col: Collector, tier: str, refs: Optional[Refs] = None, c
     from . import numerics
     numerics.run(prog, col, refs, cat)
     numerics.run_agreement(prog, col, refs, cat)
+
+    # ---------------------------------------------------------------- R15.11 Python bodies of ops whose identity comes from their name
+    from . import algebra
+    algebra.r_commutative_default_symmetric(prog, col, refs, cat, "R15.11")
+    for fq, why in sorted(axioms.UNVERIFIED.items()):
+        o = cat.ops.get(fq)
+        col.unresolved(f"{fq}::body", f"{why}; the op is taken to be what its name and the tables say, and its limit behaviour / scalar-array agreement are decided by R15.8 / R15.10",
+                       o.module.loc(o.impl) if o is not None and o.impl is not None else "")
     return col
 
 
